@@ -1367,7 +1367,7 @@ def check_rel(case):
 
 
 PARTS = [
-    Part("prox", check_prog, {"quick": 10000, "thorough": 400000}, strategy=st_prog),
-    Part("thresh", check_thresh, {"quick": 2500, "thorough": 80000}, strategy=st_thresh),
-    Part("relations", check_rel, {"quick": 2000, "thorough": 60000}, strategy=st_rel),
+    Part("prox", check_prog, {"quick": 37500, "thorough": 400000}, strategy=st_prog),
+    Part("thresh", check_thresh, {"quick": 9375, "thorough": 80000}, strategy=st_thresh),
+    Part("relations", check_rel, {"quick": 7500, "thorough": 60000}, strategy=st_rel),
 ]
